@@ -3,10 +3,12 @@
    bounded neighbourhood: all strings obtained from a short valid vector of each version by at
    most one edit (delete / replace / insert a character of a 12-character alphabet, at any
    position), for all three constructors.                                              *)
-EXTENDS ParserMachine, TLC
+EXTENDS ParserMachine, TLC, Json, IOUtils
 Alphabet == <<"A","V",":","/","N","X","L","C","3","."," ","a">>
-Seeds == << "AV:N/AC:L/Au:N/C:P/I:P/A:C", "CVSS:3.1/AV:N/AC:L/PR:N/UI:N/S:U/C:H/I:H/A:N/E:X",
-            "CVSS:4.0/AV:N/AC:L/AT:N/PR:N/UI:N/VC:H/VI:H/VA:H/SC:N/SI:N/SA:N/E:A" >>
+\* seed vectors: three built-in ones, or - when SEEDS_FILE is set - the run's own (JSON array of strings)
+DefaultSeeds == << "AV:N/AC:L/Au:N/C:P/I:P/A:C", "CVSS:3.1/AV:N/AC:L/PR:N/UI:N/S:U/C:H/I:H/A:N/E:X",
+                   "CVSS:4.0/AV:N/AC:L/AT:N/PR:N/UI:N/VC:H/VI:H/VA:H/SC:N/SI:N/SA:N/E:A" >>
+Seeds == IF "SEEDS_FILE" \in DOMAIN IOEnv THEN JsonDeserialize(IOEnv.SEEDS_FILE) ELSE DefaultSeeds
 Edits(s) == {s} \cup {SubSeq(s,1,k-1) \o SubSeq(s,k+1,Len(s)) : k \in 1..Len(s)}
             \cup {SubSeq(s,1,k-1) \o Alphabet[a] \o SubSeq(s,k+1,Len(s)) : k \in 1..Len(s), a \in 1..Len(Alphabet)}
             \cup {SubSeq(s,1,k) \o Alphabet[a] \o SubSeq(s,k+1,Len(s)) : k \in 0..Len(s), a \in 1..Len(Alphabet)}
@@ -16,4 +18,6 @@ PMNext == pm.pc # "done" /\ pm' = MStep(pm)
 Refines == pm.pc = "done" => pm.cls = Classify(pm.ver, pm.s)
 PMInit == \E q \in 1..Len(Seeds) : \E s \in Edits(Seeds[q]) : \E ver \in Versions : pm = MInit(ver, s)
 PMSpec == PMInit /\ [][PMNext]_pm
+\* spec -> code: every string of the neighbourhood is emitted once (with the constructor "2") for the replayer
+Emit == ~(pm.pc = "empty" /\ pm.ver = "2") \/ PrintT("GEN " \o ToJson([s |-> pm.s]))
 =============================================================================
